@@ -15,12 +15,12 @@ package main
 //
 // Time. The live implementation reads the real clock, so abstract instants are embedded into real time, per case:
 //   instants <= 1 (the start)            -> one hour ago       (deadline already passed at creation)
-//   instants reached by a tick (2..last) -> start + (t-1)*delta (fires later: real timer, delta = 40 ms, 400 ms, 3 s)
+//   instants reached by a tick (2..last) -> start + (t-1)*delta (fires later: real timer, delta = 40 ms, 400 ms, 4 s)
 //   instants never reached               -> in one hour        (not yet)
 // A tick sleeps until its instant and then BLOCKS on the Done channels the specification says are closed (bound:
 // closeBound). After every step the clock is read: had the next instant already been reached, the attempt says
 // nothing (the tree may be ahead of the specification) and the case is replayed with the next larger delta; a case
-// that cannot be replayed in time with delta = 3 s is a harness failure (exit 3), never a verdict. So "still open"
+// that cannot be replayed in time with delta = 4 s is a harness failure (exit 3), never a verdict. So "still open"
 // is only ever judged while the clock proves that no pending deadline has been reached.
 
 import (
@@ -70,10 +70,13 @@ type ctxKey string // the key type of the cases; a plain string with the same te
 const closeBound = 30 * time.Second
 const settleBound = 5 * time.Second
 
-var deltas = []time.Duration{40 * time.Millisecond, 400 * time.Millisecond, 3 * time.Second}
+var deltas = []time.Duration{40 * time.Millisecond, 400 * time.Millisecond, 4 * time.Second}
 
 // errLate: the attempt ran behind its real-time schedule and proves nothing.
-type errLate struct{ msg string }
+type errLate struct {
+	msg    string
+	waited bool // the attempt was in time until it had to wait for a Done the specification says is closed
+}
 
 // mismatch: the package disagrees with the specification.
 type mismatch struct {
@@ -148,7 +151,7 @@ func (w *world) late() *errLate {
 		return nil // every pending deadline is an hour away
 	}
 	if lim := w.instant(w.now + 1); !time.Now().Before(lim.Add(-time.Millisecond)) {
-		return &errLate{fmt.Sprintf("step at instant %d finished after instant %d was due (delta %v)", w.now, w.now+1, w.delta)}
+		return &errLate{msg: fmt.Sprintf("step at instant %d finished after instant %d was due (delta %v)", w.now, w.now+1, w.delta)}
 	}
 	return nil
 }
@@ -179,7 +182,7 @@ func (w *world) construct(s *stepT) (*mismatch, *errLate) {
 		w.add(c, f, s.P, s.D)
 		w.lo[s.X], w.hi[s.X] = before.Add(to), after.Add(to)
 		if after.Sub(before) > w.delta/4 {
-			return nil, &errLate{fmt.Sprintf("WithTimeout took %v (delta %v): its deadline is not ordered against the others", after.Sub(before), w.delta)}
+			return nil, &errLate{msg: fmt.Sprintf("WithTimeout took %v (delta %v): its deadline is not ordered against the others", after.Sub(before), w.delta)}
 		}
 	case "value":
 		w.add(xctx.WithValue(p, ctxKey(s.K), s.V), nil, s.P, -1)
@@ -231,60 +234,100 @@ func (w *world) acceptable(x, dl int, got time.Time) bool {
 	return false
 }
 
-// compare checks every context against the specification's observation after a step.
-func (w *world) compare(si int, s *stepT, only map[int]bool) *mismatch {
+// compare checks every context against the specification's observation after a step, in three phases:
+//
+//	A  look, without blocking, at every Done channel; read the clock: if the next instant is already due the
+//	   attempt proves nothing (errLate, the scheduler's fault); else what was seen was seen in time;
+//	B  block on the channels the specification says are closed and that are still open (bound closeBound);
+//	C  Err / Deadline / Value / registry of every context; read the clock again: if the next instant became due
+//	   while phase B waited, the closure came too late to tell it from the next deadline (errLate with waited).
+func (w *world) compare(si int, s *stepT) (*mismatch, *errLate) {
 	if len(s.Obs) != len(w.ctxs) {
 		rp.Bug("step %d: %d observations for %d contexts", si, len(s.Obs), len(w.ctxs))
 	}
 	at := func(x int) string { return fmt.Sprintf("step %d (%s): context %d", si+1, describe(s), x) }
+	// ---- A
+	var pending []int
+	var early *mismatch
 	for x, o := range s.Obs {
-		if only != nil && !only[x] {
-			continue
-		}
 		c := w.ctxs[x]
 		ch := c.Done()
 		if ch2 := c.Done(); ch != ch2 {
-			return &mismatch{what: at(x) + ": successive calls of Done return different channels", firm: true}
+			return &mismatch{what: at(x) + ": successive calls of Done return different channels", firm: true}, nil
 		}
 		if w.done[x] != nil && ch != w.done[x] {
-			return &mismatch{what: at(x) + ": Done returns another channel than after the previous step", firm: true}
+			return &mismatch{what: at(x) + ": Done returns another channel than after the previous step", firm: true}, nil
 		}
 		w.done[x] = ch
 		switch o.Done {
 		case "never":
 			if ch != nil {
-				return &mismatch{what: at(x) + ": Done() is not nil although no context on the path to Background can be cancelled", dev: "X02/background-cancelable", firm: true}
+				return &mismatch{what: at(x) + ": Done() is not nil although no context on the path to Background can be cancelled", dev: "X02/background-cancelable", firm: true}, nil
 			}
 		case "open":
 			if ch == nil {
-				return &mismatch{what: at(x) + ": Done() is nil for a context that can be cancelled", firm: true}
+				return &mismatch{what: at(x) + ": Done() is nil for a context that can be cancelled", firm: true}, nil
 			}
-			if isClosed(ch) {
-				m := &mismatch{what: fmt.Sprintf("%s: Done is closed (Err %s), the specification says open", at(x), errName(c.Err()))}
+			if isClosed(ch) && early == nil {
+				early = &mismatch{what: fmt.Sprintf("%s: Done is closed (Err %s), the specification says open", at(x), errName(c.Err()))}
 				if o.Dl >= 0 && w.now < o.Dl {
-					m.what += fmt.Sprintf("; its deadline, instant %d, is not reached at instant %d", o.Dl, w.now)
+					early.what += fmt.Sprintf("; its deadline, instant %d, is not reached at instant %d", o.Dl, w.now)
 				}
-				return m
 			}
 		case "closed":
 			if ch == nil {
-				return &mismatch{what: at(x) + ": Done() is nil, the specification says closed", firm: true}
+				return &mismatch{what: at(x) + ": Done() is nil, the specification says closed", firm: true}, nil
 			}
-			if isClosed(ch) {
-				break
-			}
-			select {
-			case <-ch:
-			case <-time.After(closeBound):
-				m := &mismatch{what: fmt.Sprintf("%s: Done still open %v after the step, the specification says closed (Err %s)", at(x), closeBound, o.Err), firm: true}
-				if s.Op == "cancel" && w.parent[x] != s.C && x != s.C && w.parent[x] != 0 && isClosed(w.ctxs[w.parent[x]].Done()) {
-					m.dev = "X02/no-grandchildren"
-				}
-				return m
+			if !isClosed(ch) {
+				pending = append(pending, x)
 			}
 		default:
 			rp.Bug("done class %q", o.Done)
 		}
+	}
+	if l := w.late(); l != nil {
+		return nil, l
+	}
+	if early != nil {
+		return early, nil
+	}
+	// ---- B
+	t0 := time.Now()
+	bound := time.After(closeBound)
+	for _, x := range pending {
+		select {
+		case <-w.ctxs[x].Done():
+		case <-bound:
+			m := &mismatch{what: fmt.Sprintf("%s: Done still open %v after the step, the specification says closed (Err %s)", at(x), closeBound, s.Obs[x].Err), firm: true}
+			if s.Op == "cancel" && w.parent[x] != s.C && x != s.C && w.parent[x] != 0 && isClosed(w.ctxs[w.parent[x]].Done()) {
+				m.dev = "X02/no-grandchildren"
+			}
+			return m, nil
+		}
+	}
+	waited := time.Since(t0)
+	// ---- C
+	m := w.compareRest(s, at)
+	if m != nil && m.firm {
+		return m, nil
+	}
+	if l := w.late(); l != nil {
+		if len(pending) > 0 {
+			l.waited = true
+			l.msg = fmt.Sprintf("%s: Done was still open after the step (the specification says closed) and was closed only %v later, when the next deadline (instant %d) was due",
+				at(pending[0]), waited.Round(time.Millisecond), w.now+1)
+			if m != nil {
+				l.msg += "; then " + m.what
+			}
+		}
+		return nil, l
+	}
+	return m, nil
+}
+
+func (w *world) compareRest(s *stepT, at func(int) string) *mismatch {
+	for x, o := range s.Obs {
+		c := w.ctxs[x]
 		e := c.Err()
 		if got := errName(e); got != o.Err {
 			m := &mismatch{what: fmt.Sprintf("%s: Err() = %s, the specification says %s", at(x), got, o.Err)}
@@ -297,16 +340,16 @@ func (w *world) compare(si int, s *stepT, only map[int]bool) *mismatch {
 		w.lastErr[x] = e
 		dl, ok := c.Deadline()
 		if dl2, ok2 := c.Deadline(); ok != ok2 || !dl.Equal(dl2) {
-			return &mismatch{what: at(x) + ": successive calls of Deadline return different results"}
+			return &mismatch{what: at(x) + ": successive calls of Deadline return different results", firm: true}
 		}
 		switch {
 		case o.Dl < 0 && ok:
-			return &mismatch{what: fmt.Sprintf("%s: Deadline() = %v, the specification says none", at(x), dl.Sub(w.t0))}
+			return &mismatch{what: fmt.Sprintf("%s: Deadline() = %v, the specification says none", at(x), dl.Sub(w.t0)), firm: true}
 		case o.Dl >= 0 && !ok:
-			return &mismatch{what: fmt.Sprintf("%s: no deadline, the specification says instant %d", at(x), o.Dl)}
+			return &mismatch{what: fmt.Sprintf("%s: no deadline, the specification says instant %d", at(x), o.Dl), firm: true}
 		case o.Dl >= 0 && !w.acceptable(x, o.Dl, dl):
 			m := &mismatch{what: fmt.Sprintf("%s: Deadline() = start%+v, the specification says instant %d = start%+v (the minimum over the path to Background)",
-				at(x), dl.Sub(w.t0), o.Dl, w.instant(o.Dl).Sub(w.t0))}
+				at(x), dl.Sub(w.t0), o.Dl, w.instant(o.Dl).Sub(w.t0)), firm: true} // the WithTimeout bracket was checked at construction
 			if dl.After(w.instant(o.Dl)) && w.req[x] > o.Dl {
 				m.dev = "X02/own-deadline"
 			}
@@ -389,14 +432,7 @@ func (w *world) step(si int, s *stepT) (*mismatch, *errLate) {
 	if s.Now != w.now {
 		rp.Bug("step %d: instant %d, replayer at %d", si, s.Now, w.now)
 	}
-	m := w.compare(si, s, nil)
-	if m != nil && m.firm {
-		return m, nil
-	}
-	if l := w.late(); l != nil {
-		return nil, l // whatever was seen: the clock does not prove that it was seen in time
-	}
-	return m, nil
+	return w.compare(si, s)
 }
 
 func (w *world) prefix(upto int) (*mismatch, *errLate) {
@@ -434,22 +470,28 @@ func fail(m *mismatch, root string, attempt int) rp.Result {
 	return rp.Result{OK: false, What: what, Deviation: m.dev, Observed: m.obs, Nontriv: true, Info: map[string]int{"attempt": attempt}}
 }
 
-// withRetries runs one attempt per delta until one is in time.
+// withRetries runs attempts with growing delta until one is in time. An attempt that fell behind only because a Done
+// channel that should have been closed stayed open until the next deadline is repeated with the largest delta at once;
+// if it happens again there, the closure did not come within seconds of the step: that is the verdict.
 func withRetries(tc *caseT, i int, attempt func(w *world) (*mismatch, *errLate)) rp.Result {
 	root, rootName := rootFor(i)
 	var last *errLate
-	for a, d := range deltas {
-		w := newWorld(tc, d, root)
+	for a := 0; a < len(deltas); {
+		w := newWorld(tc, deltas[a], root)
 		m, l := attempt(w)
 		w.release()
-		if l != nil {
-			last = l
-			continue
-		}
-		if m != nil {
+		switch {
+		case l != nil && l.waited && a == len(deltas)-1:
+			return fail(&mismatch{what: l.msg + fmt.Sprintf(" (instants %v apart)", deltas[a])}, rootName, a)
+		case l != nil && l.waited:
+			last, a = l, len(deltas)-1
+		case l != nil:
+			last, a = l, a+1
+		case m != nil:
 			return fail(m, rootName, a)
+		default:
+			return rp.Result{OK: true, Nontriv: true, Info: map[string]int{"attempt": a}}
 		}
-		return rp.Result{OK: true, Nontriv: true, Info: map[string]int{"attempt": a}}
 	}
 	rp.Bug("case %d could not be replayed on schedule even with delta %v: %s", i, deltas[len(deltas)-1], last.msg)
 	panic("unreachable")
